@@ -108,6 +108,81 @@ def wsLoop : Nat → WsReader → List WsMsg → Nat → Bytes → WsReader × L
 def WsReader.read (r : WsReader) (arrived : List WsMsg) (bufLen : Nat) : WsReader × List WsMsg × WsResult :=
   wsLoop (2 * arrived.length + 4) r arrived bufLen []
 
+/-! ### websocket write adapter -/
+
+/-- how the (non-blocking) socket under the websocket takes one `write` call: at most `n` bytes, would block, fails -/
+inductive SockStep where
+  | accept (n : Nat)
+  | block
+  | fail
+  deriving Repr, BEq, DecidableEq
+
+/-- bytes on the wire of one binary message from a client (masked) with an `n`-byte payload -/
+def wsClientFrameLen (n : Nat) : Nat := (if n < 126 then 2 else if n < 65536 then 4 else 10) + 4 + n
+
+structure WsWriter where
+  /-- tungstenite's out buffer: the frames queued and not yet taken by the socket, oldest first, each with the number of
+      its bytes still unsent and its payload -/
+  queued : List (Nat × Bytes) := []
+  /-- payloads of the frames the socket has taken completely, in order: the messages a server decodes -/
+  delivered : List Bytes := []
+  deriving Repr, BEq, DecidableEq, Inhabited
+
+/-- the socket takes `k` bytes from the front of the out buffer: (what stays queued, payloads of frames now complete) -/
+def takeBytes : List (Nat × Bytes) → Nat → List (Nat × Bytes) × List Bytes
+  | [], _ => ([], [])
+  | (r, p) :: rest, k =>
+    if k ≥ r then
+      let (q, d) := takeBytes rest (k - r)
+      (q, p :: d)
+    else ((r - k, p) :: rest, [])
+
+def queuedBytes (q : List (Nat × Bytes)) : Nat := (q.map (·.1)).foldl (· + ·) 0
+
+inductive WResult where
+  | ok
+  | wouldBlock
+  | err
+  deriving Repr, BEq, DecidableEq
+
+/-- `write_out_buffer` + flush: offer the whole out buffer to the socket until it is empty, the socket would block or
+    fails; an exhausted plan means the socket takes everything -/
+def wsFlushLoop : Nat → WsWriter → List SockStep → WsWriter × List SockStep × WResult
+  | 0, w, plan => (w, plan, .wouldBlock)
+  | fuel + 1, w, plan =>
+    if queuedBytes w.queued = 0 then (w, plan, .ok)
+    else
+      match plan with
+      | [] =>
+        let (q, d) := takeBytes w.queued (queuedBytes w.queued)
+        ({ queued := q, delivered := w.delivered ++ d }, [], .ok)
+      | .accept n :: rest =>
+        let k := min (max n 1) (queuedBytes w.queued)
+        let (q, d) := takeBytes w.queued k
+        wsFlushLoop fuel { queued := q, delivered := w.delivered ++ d } rest
+      | .block :: rest => (w, rest, .wouldBlock)
+      | .fail :: rest => (w, rest, .err)
+
+/-- `WebsocketStreamWrapper::write`: the message is queued, then flushed as far as the socket allows.  Once queued the
+    bytes are consumed - a socket that would block only delays them - so the caller is told `buf.len()`; (result, bytes
+    consumed) -/
+def WsWriter.write (w : WsWriter) (buf : Bytes) (plan : List SockStep) : WsWriter × List SockStep × WResult × Nat :=
+  let w1 := { w with queued := w.queued ++ [(wsClientFrameLen buf.length, buf)] }
+  let (w2, plan', r) := wsFlushLoop (plan.length + 2) w1 plan
+  match r with
+  | .err => (w2, plan', .err, 0)
+  | _ => (w2, plan', .ok, buf.length)
+
+/-- `WebsocketStreamWrapper::flush` -/
+def WsWriter.flush (w : WsWriter) (plan : List SockStep) : WsWriter × List SockStep × WResult :=
+  wsFlushLoop (plan.length + 2) w plan
+
+/-- one step of the threaded client's connected loop on its stream: offer the unsent remainder, or flush -/
+inductive WsCall where
+  | write (buf : Bytes)
+  | flush
+  deriving Repr, BEq, DecidableEq
+
 /-! ### operation result slot -/
 
 /-- the completion guard of one submitted operation: `armed` until a result is delivered -/
